@@ -759,6 +759,10 @@ class BaseConnector:
             if self._available_connections(key) > 0:
                 break
             attempts += 1
+            # The wake-up cannot be used for this key any more (lost the race,
+            # e.g. against limit_per_host). It may still fit a waiter of
+            # another key; without this it would be lost until the next release.
+            self._release_waiter()
 
     async def _get(
         self, key: "ConnectionKey", traces: list["Trace"]
